@@ -29,6 +29,9 @@ def holstein(nmol, scheme, pdim=3, seed=0):
         phs = [Phonon.simple_phonon(Quantity(w), Quantity(float(rng.uniform(0.5, 1.2)) * (1 if i % 2 == 0 else -0.6)), pdim)]
         if variant == "twomodes":
             phs.append(Phonon.simple_phonon(Quantity(w), Quantity(float(rng.uniform(0.3, 1.5))), pdim))
+        if variant == "shifted":
+            # different curvature on the excited surface (omega_1 != omega_0)
+            phs = [Phonon([Quantity(w), Quantity(w * float(rng.uniform(0.6, 1.5)))], [Quantity(0), Quantity(float(rng.uniform(0.5, 1.2)))], pdim)]
         mols.append(Mol(Quantity(float(rng.uniform(0.0, 0.5))), phs))
     j = np.zeros((nmol, nmol))
     for i in range(nmol - 1):
@@ -52,7 +55,8 @@ def local_h(model, space):
         op = construct_ph_op_dict(ph.pbond)
         h = op[r"b^\dagger b"] * ph.omega[0]
         if space == "EX":
-            h = h + op[r"b^\dagger + b"] * ph.term10
+            # coefficient of (b^+ + b) on the excited surface, written out: -omega_1^2 d x with x = (b^+ + b) / sqrt(2 omega_0)  (not read from the package)
+            h = h + op[r"b^\dagger + b"] * (-(ph.omega[1] ** 2) * ph.dis[1] / np.sqrt(2.0 * ph.omega[0]))
         mats = [np.eye(d) for d in dims]
         mats[isite] = h
         m = np.ones((1, 1))
@@ -97,6 +101,18 @@ def worker(case, led):
                           f"norm {np.linalg.norm(v)}", key + ("norm",), fields, rep)
                 led.check(np.abs(S.dense(a) - v0).max() <= 1e-12, f"frame:Mps.evolve[{method}]:input_imaginary_time", f"Mps._evolve_{method}", "input changed",
                           key + ("frame",), fields, rep)
+                # an input that carries a prefactor which is not a positive real (a phase i, a sign): the result is e^(-tau H) (c psi) / |.|, phase included
+                if solver == "krylov" and x == 0.1:
+                    for c_ in (1j, -1.0, 0.6 - 0.8j):
+                        ac = a.copy()
+                        ac.coeff = c_
+                        try:
+                            rc, _m = evolve(ac, H, -1j * tau, method, ivp_solver=solver, guess_dt=-1j * tau)
+                            errc = np.linalg.norm(S.dense(rc) - c_ * ref)
+                            led.check(errc <= bnd, f"post:Mps.evolve[{method}]:imaginary_time_keeps_the_phase_of_the_prefactor", f"Mps._evolve_{method}",
+                                      f"input prefactor {c_}: |psi - c e^(-tau H)psi0/|.|| = {errc:.3e} > {bnd:.3e}", key + ("phase", str(c_)), fields, dict(rep, prefactor=str(c_)))
+                        except Exception as e:
+                            led.check(False, f"post:Mps.evolve[{method}]:imaginary_time_total", f"Mps._evolve_{method}", f"prefactor {c_}: raised {type(e).__name__}: {e}", key + ("phase", str(c_)), fields, rep)
     elif kind == "cmf_order":
         # the constant-mean-field scheme with the mid-point environment (the default) is second order in imaginary time as well: halving tau divides the one-step
         # error by ~8 (first order: ~4).  The mid-point environment has to be the state evolved by HALF THE IMAGINARY step.
@@ -358,7 +374,7 @@ def check(run):
         for name, n in (("spinqn", 4), ("holstein", 4)):
             for solver in ("RK45", "krylov"):
                 cases.append(("cmf_order", name, n, solver, s, run.tier))
-        for nmol in (1, 2, (2, "degenerate"), (1, "twomodes")) + (((2, "twomodes"),) if run.tier != "quick" else ()):
+        for nmol in (1, 2, (2, "degenerate"), (1, "twomodes"), (1, "shifted"), (2, "shifted")) + (((2, "twomodes"),) if run.tier != "quick" else ()):
             for scheme in (2, 4):
                 cases.append(("exactprop", nmol, scheme, s, run.tier))
                 cases.append(("thermal_exact", nmol, scheme, s, run.tier))
